@@ -306,6 +306,9 @@ func hasCallOutsideErrorsIs(e ast.Expr) bool {
 	found := false
 	ast.Inspect(e, func(c ast.Node) bool {
 		if ce, ok := c.(*ast.CallExpr); ok {
+			if id, isId := ce.Fun.(*ast.Ident); isId && builtins[id.Name] {
+				return true
+			}
 			if exprStr(ce.Fun) != "errors.Is" {
 				found = true
 			}
